@@ -1,0 +1,229 @@
+//! Verification hooks.
+//!
+//! This module is only compiled with `--cfg deltio_verif`. It lets an external
+//! model-checking harness observe and decide the few things that are otherwise
+//! decided by the runtime, the OS or a remote endpoint:
+//!
+//! * `label`: a name hint for the task that is about to be spawned;
+//! * `point`: a synchronous preemption point (the harness may run other tasks here);
+//! * `capacity`: the capacity of an actor mailbox;
+//! * `push_send`: the transport used by the push loop.
+//!
+//! With no `Hooks` installed on the current thread everything here is a pass-through.
+use std::cell::{Cell, RefCell};
+use std::future::Future;
+use std::pin::Pin;
+use std::sync::Arc;
+
+/// The future returned by the push transport.
+pub type PushSendFuture =
+    Pin<Box<dyn Future<Output = Result<reqwest::Response, reqwest::Error>> + Send>>;
+
+/// Implemented by the harness.
+pub trait Hooks {
+    /// Name hint for the next task spawned on this thread.
+    fn label(&self, label: String);
+
+    /// A preemption point. Never called while an instrumented lock is held.
+    fn point(&self, site: &'static str);
+
+    /// The capacity to use for a mailbox of the given kind.
+    fn capacity(&self, kind: &'static str, default: usize) -> usize;
+
+    /// Sends a push request.
+    fn push_send(&self, request: reqwest::RequestBuilder) -> PushSendFuture;
+}
+
+thread_local! {
+    static HOOKS: RefCell<Option<Arc<dyn Hooks>>> = const { RefCell::new(None) };
+    static LOCKS_HELD: Cell<usize> = const { Cell::new(0) };
+}
+
+/// Installs (or removes) the hooks for the current thread.
+pub fn install(hooks: Option<Arc<dyn Hooks>>) {
+    HOOKS.with(|s| *s.borrow_mut() = hooks);
+}
+
+fn hooks() -> Option<Arc<dyn Hooks>> {
+    HOOKS.try_with(|s| s.borrow().clone()).ok().flatten()
+}
+
+/// Hints the name of the task that is spawned next.
+pub fn label(f: impl FnOnce() -> String) {
+    if let Some(h) = hooks() {
+        h.label(f());
+    }
+}
+
+/// A synchronous preemption point.
+pub fn point(site: &'static str) {
+    if LOCKS_HELD.try_with(|c| c.get()).unwrap_or(1) > 0 {
+        return;
+    }
+    if let Some(h) = hooks() {
+        h.point(site);
+    }
+}
+
+/// The mailbox capacity for the given kind of actor.
+pub fn capacity(kind: &'static str, default: usize) -> usize {
+    hooks().map(|h| h.capacity(kind, default)).unwrap_or(default)
+}
+
+/// Sends a push request, through the harness if there is one.
+pub fn push_send(request: reqwest::RequestBuilder) -> PushSendFuture {
+    match hooks() {
+        Some(h) => h.push_send(request),
+        None => Box::pin(request.send()),
+    }
+}
+
+/// Drop-in for `tokio::sync::mpsc` as used by the actors: the capacity passes
+/// through `capacity`, and every `send` is preceded by a preemption point.
+pub mod mpsc {
+    pub use tokio::sync::mpsc::error;
+    pub use tokio::sync::mpsc::Receiver;
+
+    /// See `tokio::sync::mpsc::Sender`.
+    pub struct Sender<T>(tokio::sync::mpsc::Sender<T>);
+
+    impl<T> Clone for Sender<T> {
+        fn clone(&self) -> Self {
+            Self(self.0.clone())
+        }
+    }
+
+    impl<T> std::fmt::Debug for Sender<T> {
+        fn fmt(&self, f: &mut std::fmt::Formatter<'_>) -> std::fmt::Result {
+            self.0.fmt(f)
+        }
+    }
+
+    impl<T> Sender<T> {
+        /// See `tokio::sync::mpsc::Sender::send`.
+        pub async fn send(&self, value: T) -> Result<(), error::SendError<T>> {
+            super::point("mailbox.send");
+            self.0.send(value).await
+        }
+    }
+
+    /// See `tokio::sync::mpsc::channel`.
+    #[track_caller]
+    pub fn channel<T>(buffer: usize) -> (Sender<T>, Receiver<T>) {
+        let file = std::panic::Location::caller().file();
+        let kind = if file.contains("topic_actor") {
+            "topic"
+        } else if file.contains("subscription_actor") {
+            "subscription"
+        } else {
+            "other"
+        };
+        let (sender, receiver) = tokio::sync::mpsc::channel(super::capacity(kind, buffer));
+        (Sender(sender), receiver)
+    }
+}
+
+/// Drop-ins for the `parking_lot` locks used by the managers, the push registry
+/// and the subscription observer: every acquisition is preceded by a preemption
+/// point, and no preemption point is taken while one of them is held.
+pub mod sync {
+    use super::LOCKS_HELD;
+    use std::ops::{Deref, DerefMut};
+
+    fn acquire(site: &'static str) {
+        super::point(site);
+        let _ = LOCKS_HELD.try_with(|c| c.set(c.get() + 1));
+    }
+
+    fn release() {
+        let _ = LOCKS_HELD.try_with(|c| c.set(c.get().saturating_sub(1)));
+    }
+
+    /// See `parking_lot::RwLock`.
+    pub struct RwLock<T>(parking_lot::RwLock<T>);
+
+    /// See `parking_lot::Mutex`.
+    pub struct Mutex<T>(parking_lot::Mutex<T>);
+
+    pub struct ReadGuard<'a, T>(parking_lot::RwLockReadGuard<'a, T>);
+    pub struct WriteGuard<'a, T>(parking_lot::RwLockWriteGuard<'a, T>);
+    pub struct MutexGuard<'a, T>(parking_lot::MutexGuard<'a, T>);
+
+    impl<T> RwLock<T> {
+        pub fn new(value: T) -> Self {
+            Self(parking_lot::RwLock::new(value))
+        }
+
+        pub fn read(&self) -> ReadGuard<'_, T> {
+            acquire("lock.read");
+            ReadGuard(self.0.read())
+        }
+
+        pub fn write(&self) -> WriteGuard<'_, T> {
+            acquire("lock.write");
+            WriteGuard(self.0.write())
+        }
+    }
+
+    impl<T> Mutex<T> {
+        pub fn new(value: T) -> Self {
+            Self(parking_lot::Mutex::new(value))
+        }
+
+        pub fn lock(&self) -> MutexGuard<'_, T> {
+            acquire("lock.mutex");
+            MutexGuard(self.0.lock())
+        }
+    }
+
+    impl<T> Deref for ReadGuard<'_, T> {
+        type Target = T;
+        fn deref(&self) -> &T {
+            &self.0
+        }
+    }
+
+    impl<T> Deref for WriteGuard<'_, T> {
+        type Target = T;
+        fn deref(&self) -> &T {
+            &self.0
+        }
+    }
+
+    impl<T> DerefMut for WriteGuard<'_, T> {
+        fn deref_mut(&mut self) -> &mut T {
+            &mut self.0
+        }
+    }
+
+    impl<T> Deref for MutexGuard<'_, T> {
+        type Target = T;
+        fn deref(&self) -> &T {
+            &self.0
+        }
+    }
+
+    impl<T> DerefMut for MutexGuard<'_, T> {
+        fn deref_mut(&mut self) -> &mut T {
+            &mut self.0
+        }
+    }
+
+    impl<T> Drop for ReadGuard<'_, T> {
+        fn drop(&mut self) {
+            release();
+        }
+    }
+
+    impl<T> Drop for WriteGuard<'_, T> {
+        fn drop(&mut self) {
+            release();
+        }
+    }
+
+    impl<T> Drop for MutexGuard<'_, T> {
+        fn drop(&mut self) {
+            release();
+        }
+    }
+}
